@@ -130,6 +130,28 @@ def generate(rng, n, tier="quick"):
         case["id"] = "%s-%06d" % (ID, i)
         oc = ref_outcome({"main": ast}, "main", data, False, lambda s: s)
         out.append((case, {"prov": prov, "oracle": list(oc), "len": len(c)}))
+    # directed: the collection spelled with a `this` that is not at the start of the path – behind @root, behind a name, behind
+    # ../ or this. – designates what the path designates without it (a `this` segment never names a field)
+    rows = [({"a": 1, "b": "x"},
+             "[{{#each @root.this}}{{@key}}={{this}},{{/each}}|{{#each @root/this as |v k|}}{{k}}={{v}},{{/each}}|"
+             "{{#each this}}{{#each @root.this}}{{@key}}{{@../key}};{{/each}}{{/each}}|{{#each @root.this}}{{@index}}{{@first}}{{@last}},{{else}}none{{/each}}]",
+             "[a=1,b=x,|a=1,b=x,|aa;ba;ab;bb;|0truefalse,1falsetrue,]"),
+            ({"c": [7, 8], "o": {"c": [7, 8]}},
+             "[{{#each c.this}}{{@index}}:{{this}},{{/each}}|{{#each @root.this.c}}{{this}},{{/each}}|{{#each this.c.this}}{{this}}{{/each}}|"
+             "{{#with o}}{{#each ../this.c}}{{this}}{{/each}}|{{#each this.this.c}}{{this}}{{/each}}{{/with}}|{{#each @root.o.this.c}}{{this}}{{/each}}|"
+             "{{#each o/this/c as |v i|}}{{i}}{{v}}{{/each}}]",
+             "[0:7,1:8,|7,8,|78|78|78|78|0718]")]
+    # … and the types of the iteration variables: over an array there is NO @key (also when the array is iterated inside an object
+    # iteration), the second block parameter is the index as a NUMBER (usable as a lookup index, equal to the literal 0)
+    rows.append(({"xs": ["a", "b"], "ys": ["Y0", "Y1"], "o": {"k": ["p"]}},
+                 "[{{#each xs}}{{@key}}|{{/each}}#{{#each xs}}{{#if @key}}k{{else}}n{{/if}}{{/each}}#"
+                 "{{#each xs as |v i|}}{{lookup ../ys i}}{{#if (eq i 0)}}z{{/if}}{{/each}}#{{#each o}}{{#each this}}<{{@key}}>{{/each}}{{/each}}#"
+                 "{{#each xs as |v i|}}{{lookup ../ys @index}}{{/each}}#{{#each o as |v k|}}{{lookup ../o k}}{{#if (eq k \"k\")}}s{{/if}}{{/each}}]",
+                 "[||#nn#Y0zY1#<>#Y0Y1#[p]s]"))
+    for k, (data, src, exp) in enumerate(rows):
+        case = session({"escape": "none"}, [("main", src)], {"api": "render", "name": "main"}, data)
+        case["id"] = "%s-this%02d" % (ID, k)
+        out.append((case, {"prov": "thisseg", "oracle": ["must", exp], "len": 2}))
     # the family of the Lean theorem C07.each_block_renders_body_per_element: L ++ {{#each v}}A{{/each}} ++ R for any text L that may
     # stand before a tag, any text R without '{{' and any array under v (length 0..40, arbitrary elements): one A per element
     from .C03 import thm_left, thm_right
